@@ -87,4 +87,5 @@ cmd-naive-store-keeps-partial-archive-after-read-error, 20/22.  Thorough: exit 0
 
 Unchanged tree before the fix phase: exit 0, 18/18, 263 cases, 0 disagreements, oracle failures only in the listed classes; the race finding is
 `NOT reproduced` on most runs.  Quick wall 214 s .. 1678 s for 3-4 CPU-min (shared lake lock; load average 40-150 on 16 cores).
+Quiet machine (load < 30), after the fix phase: quick 24 s warm / 2.5 min with cold builds; thorough (899 cases) 2 min.
 """
